@@ -193,22 +193,36 @@ def strip_for(module, trace):
 
 
 def wd_meta_then_rememoized(trace, upto, e):
-    """the metadata key read by e was last written `with the data` and the call was memoized again since
-    (open finding C05-metadata-with-data-lost-on-rememoize)"""
+    """Open finding C05-metadata-with-data-keyed-by-result-object: the metadata key read by e was last written
+    `with the data`, and since then either the call was memoized again, or another call whose result is the
+    same stored object wrote the same metadata key with the data (the value lives next to the object)."""
     if e.get("op") != "ReadMetadata":
         return False
-    state = None
+    me = (e["f"], e["h"])
+    cur = {}          # call -> value id of its current result
+    state = None      # None | "plain" | "wd" | "displaced"
     for p in trace["ev"][:upto]:
         if p.get("exc"):
             continue
-        if p["op"] == "WriteMetadata" and (p["f"], p["h"], p["mk"]) == (e["f"], e["h"], e["mk"]):
-            state = "wd" if p.get("wd") else "plain"
-        elif p["op"] == "Memoize" and (p["f"], p["h"]) == (e["f"], e["h"]) and state == "wd":
-            state = "wd+memoized"
-        elif (p["op"] == "ForgetCall" and (p["f"], p["h"]) == (e["f"], e["h"])) or \
-                (p["op"] == "ForgetFunction" and p["f"] == e["f"]) or p["op"] == "ForgetEverything":
+        if p["op"] == "Memoize":
+            cur[(p["f"], p["h"])] = p.get("v")
+            if (p["f"], p["h"]) == me and state == "wd":
+                state = "displaced"
+        elif p["op"] == "WriteMetadata" and p["mk"] == e["mk"]:
+            if (p["f"], p["h"]) == me:
+                state = "wd" if p.get("wd") else "plain"
+            elif p.get("wd") and state == "wd" and cur.get((p["f"], p["h"])) is not None and cur.get((p["f"], p["h"])) == cur.get(me):
+                state = "displaced"
+        elif (p["op"] == "ForgetCall" and (p["f"], p["h"]) == me) or (p["op"] == "ForgetFunction" and p["f"] == e["f"]) \
+                or p["op"] == "ForgetEverything":
             state = None
-    return state == "wd+memoized"
+        if p["op"] == "ForgetCall":
+            cur.pop((p["f"], p["h"]), None)
+        elif p["op"] == "ForgetFunction":
+            cur = {k: v for k, v in cur.items() if k[0] != p["f"]}
+        elif p["op"] == "ForgetEverything":
+            cur = {}
+    return state == "displaced"
 
 
 def event_facts(prop, trace, rej):
